@@ -102,8 +102,11 @@ def run_query(text, limit_s=30):
             fn = inner.filename
             rel = os.path.relpath(fn, REPO) if fn.startswith(REPO) else fn
             site = "%s/%s/%s/%s" % (type(e).__name__, rel, inner.name, (inner.line or "").strip())
-            if rel.startswith("aw_query"):
+            in_builtin_body = rel == os.path.join("aw_query", "functions.py") and inner.name.startswith("q2_")
+            if rel.startswith("aw_query") and not in_builtin_body:
                 return "escape", site
+            # raised while a built-in (q2_* body, transform, datastore) was already running on
+            # arguments that passed name / arity / top-level type resolution: outside the property
             return "outside", site
     finally:
         signal.setitimer(signal.ITIMER_REAL, 0)
@@ -149,6 +152,26 @@ def h_mutate(x, seed, kinds=("sub", "ins"), edit="none", nsym=1):
     return verdict(text)
 
 
+ARGS = ["1", '"b1"', "'zz'", "[]", '["zz", 1]', "{}", "{'a': 1}", "x"]
+
+
+def h_misuse(x, maxargs=3):
+    """every registered built-in called with 0..maxargs arguments of assorted types (existing and
+    unknown bucket names, ints, lists, dicts, an event list variable): value or query error"""
+    names = sorted(QF.functions.keys())
+    candidates()
+    f = names[x.choice("fn", len(names))]
+    k = x.choice("nargs", maxargs + 1)
+    args = [ARGS[x.choice("arg%d" % i, len(ARGS))] for i in range(k)]
+    text = 'x = query_bucket("b1"); RETURN = %s(%s);' % (f, ", ".join(args))
+    obl, obs = verdict(text)
+    if f in ("query_bucket", "query_bucket_eventcount", "find_bucket") and args == ["'zz'"]:
+        # an unknown bucket must be reported as a function error
+        outcome, detail = run_query(text)
+        obl.append(("unknown-bucket-is-a-function-error/%s" % f, outcome == "ok" and detail == "QueryFunctionException"))
+    return obl, obs
+
+
 CONTEXTS = ["%s", "RETURN=%s", "RETURN=nop(%s)", "RETURN=[%s]", "RETURN={%s}", "RETURN={'a':%s}", "RETURN=sum_durations(%s);"]
 
 
@@ -174,6 +197,8 @@ SEEDS = [
     "RETURN = [1,];",
     "asd=1;RETURN=asd2",
     "RETURN = query_bucket('b3')",
+    'RETURN = query_bucket_eventcount("b1") ;',
+    "RETURN = find_bucket('b', \"host2\");",
 ]
 SHORT_SEEDS = ["RETURN=1;", "RETURN=nop();", "RETURN=[1];", "RETURN={'a':1};", "x=1;RETURN=x"]
 
@@ -189,6 +214,7 @@ def harnesses(tier):
                 hs.append((Harness(PROP, "mutate-seed%02d-%s" % (i, edit), h_mutate, dict(seed=seed, edit=edit), "seed %r after a %s edit at every position, then one arbitrary character substituted / inserted" % (seed, edit), split_depth=7), 1800))
         for i, seed in enumerate(SHORT_SEEDS):
             hs.append((Harness(PROP, "mutate2-short%02d" % i, h_mutate, dict(seed=seed, nsym=2), "seed %r with two arbitrary characters substituted / inserted" % seed, split_depth=8), 3600))
+    hs.append((Harness(PROP, "builtin-misuse", h_misuse, dict(maxargs=2 if tier == "quick" else 3), "every registered built-in with 0..%d arguments drawn from %d values of assorted types" % (2 if tier == "quick" else 3, len(ARGS)), split_depth=8), 1800))
     lengths = [1, 2] if tier == "quick" else [1, 2, 3]
     for ci, ctx in enumerate(CONTEXTS):
         for L in lengths:
